@@ -54,7 +54,7 @@ PROPERTIES = {
     "C07": {"lean_module": "CelmaVerif.Props.C07", "obligation_modules": ["CelmaVerif.Props.C07b"],
             "kind": "functional", "trusted": TRUST,
             "assumptions": ["claimed for the modelled fragment only",
-                            "file lines are delivered by std::getline as written (no NUL / newline inside a word)"]},
+                            "the std::getline loop over the bytes of the argument file is modelled by fileLines (exercised by the fileraw= cases: last line terminated or not); no NUL inside a word"]},
     "C08": {"lean_module": "CelmaVerif.Props.C08", "kind": "functional", "trusted": TRUST,
             "assumptions": ["claimed for the modelled fragment only",
                             "constraint partners and the arguments of one handler constraint live in the same member"]},
@@ -83,12 +83,24 @@ def words_hex(ws):
     return " ".join(G.hx(w) for w in ws)
 
 
+def file_opt(rng, lines):
+    """the argument file as an option of `pa eval`: line by line (`file=`, the harness terminates every line), or
+    the bytes as they are (`fileraw=`) - with the last line terminated or not"""
+    if not lines:
+        return "file=-"
+    if rng.random() < 0.6 or any("\n" in l for l in lines):
+        return "file=" + "|".join(G.hx(l) for l in lines)
+    return "fileraw=" + G.hx("\n".join(lines) + ("\n" if rng.random() < 0.4 else ""))
+
+
 def make_case(rng, cid, what):
     """what: set of batches wanted: valid, broken, sources, groups, raw"""
     if "sources" in what and rng.random() < 0.3:
         return source_multi_case(rng, cid)
     if ("valid" in what or "broken" in what) and rng.random() < 0.12:
         return constraint_spelling_case(rng, cid)
+    if ("valid" in what or "broken" in what) and rng.random() < 0.08:
+        return positional_case(rng, cid)
     if ("valid" in what or "broken" in what or "groups" in what) and rng.random() < 0.08:
         return value_constraint_case(rng, cid)
     if ("valid" in what or "broken" in what) and rng.random() < 0.05:
@@ -173,7 +185,7 @@ def make_case(rng, cid, what):
             if all(x is not None for x in eq):
                 opts = []
                 if fl or rng.random() < 0.3:
-                    opts.append("file=" + "|".join(G.hx(l) for l in fl) if fl else "file=-")
+                    opts.append(file_opt(rng, fl))
                 if eq:
                     opts.append("env=" + G.hx(" ".join(eq)))
                 add("pa eval %s -- %s" % (" ".join(opts), words_hex(aws)), want, "sources")
@@ -193,7 +205,7 @@ def make_case(rng, cid, what):
                     involved = any(i in tgt for a_ in args for _, tgt, _s in a_.cons) or args[i].cons or \
                         any(i in mem for _, mem, _s in globs)
                     if not involved:
-                        add("pa eval file=%s -- %s" % (G.hx(" ".join(q)), words_hex(ws)), want, "override")
+                        add("pa eval %s -- %s" % (file_opt(rng, [" ".join(q)]), words_hex(ws)), want, "override")
     if "sources" in what:
         # override beyond the cardinality: values from the file / the environment do not count, so an argument with a
         # finite maximum may get more than the maximum there and still its full share on the command line
@@ -223,7 +235,7 @@ def make_case(rng, cid, what):
                 if aws is not None:
                     want2 = G.expected(args, uses, extra_first=extra)
                     if rng.random() < 0.5:
-                        opt = "file=" + G.hx(" ".join(srcwords))
+                        opt = file_opt(rng, [" ".join(srcwords)])
                     else:
                         opt = "env=" + G.hx(" ".join(srcwords))
                     add("pa eval %s -- %s" % (opt, words_hex(aws)), want2, "override-cardinality")
@@ -410,6 +422,60 @@ def constraint_spelling_case(rng, cid):
                 add("cs-excl-before", "ok 0:i=7 1:f=%d 2:f=%d 3:f=%d" % (fa, fb, fd), uc + pre)
     rng.shuffle(out)
     return Case(cid, lines + out[:24])
+
+
+def positional_case(rng, cid):
+    """a positional argument (key "-", int or string) beside a flag, a value argument, a multi-value list and a plain
+    list: a bare word goes to the positional argument unless the last identified argument is a multi-value list —
+    and every key, also a flag's, ends such a list (any-order clause of C01: `-v 1 2 -f 9`, `9 -v 1 2 -f`,
+    `-f 9 -v 1 2` store the same)"""
+    sf, sg, sn, sv, sw = rng.sample(G.SHORTS, 5)
+    lf, ln, lv = rng.sample(G.LONGS, 3)
+    abbr = rng.randint(0, 1)
+    if abbr and any(x != y and (x.startswith(y) or y.startswith(x)) for x in (lf, ln, lv) for y in (lf, ln, lv)):
+        abbr = 0
+    pk = rng.choice(["int", "str"])
+    mand = rng.random() < 0.4
+    lines = ["pa cfg begin abbr=%d" % abbr,
+             "pa arg key=- kind=%s%s" % (pk, " mandatory" if mand else ""),
+             "pa arg key=%s,%s kind=flag" % (sf, lf),
+             "pa arg key=%s kind=flag" % sg,
+             "pa arg key=%s,%s kind=int" % (sn, ln),
+             "pa arg key=%s,%s kind=vec multi" % (sv, lv),
+             "pa arg key=%s kind=vec" % sw,
+             "pa cfg end"]
+    pv = str(rng.randint(2, 99)) if pk == "int" else rng.choice(["abc", "x", "Peter", "7"])
+    pout = ("0:i=%s" % pv) if pk == "int" else ("0:s=%s" % G.hx(pv))
+    pnone = "0:i=0" if pk == "int" else "0:s=-"
+    kf = lambda: rng.choice(["-" + sf, "--" + lf] + (["--" + lf[:-1]] if abbr and len(lf) > 3 else []))
+    kv = lambda: rng.choice(["-" + sv, "--" + lv])
+    out = []
+
+    def add(label, exp, ws):
+        out.append("pa eval x-lbl=%s x-exp=%s -- %s" % (label, G.hx(exp), words_hex(ws)))
+
+    def ok(p, f=0, g=0, n=0, v=(), w=()):
+        return "ok %s 1:f=%d 2:f=%d 3:i=%d 4:v=[%s] 5:v=[%s]" % (p, f, g, n, ",".join(map(str, v)), ",".join(map(str, w)))
+    a, b, c = rng.randint(1, 9), rng.randint(10, 19), rng.randint(20, 29)
+    # the same assignment in every order
+    add("pos-after-flag", ok(pout, f=1, v=(a, b)), [kv(), str(a), str(b), kf(), pv])
+    add("pos-first", ok(pout, f=1, v=(a, b)), [pv, kv(), str(a), str(b), kf()])
+    add("pos-middle", ok(pout, f=1, v=(a, b)), [kf(), pv, kv(), str(a), str(b)])
+    add("pos-after-flag-group", ok(pout, f=1, g=1, v=(a,)), [kv(), str(a), "-" + sf + sg, pv])
+    add("pos-after-value-arg", ok(pout, n=c, v=(a, b)), [kv(), str(a), str(b), "-" + sn, str(c), pv])
+    add("pos-after-value-arg-eq", ok(pout, n=c, v=(a,)), [kv(), str(a), "--%s=%d" % (ln, c), pv])
+    add("pos-after-glued", ok(pout, n=c), ["-%s%d" % (sn, c), pv])
+    add("pos-after-plain-list", ok(pout, w=(a, b)), ["-" + sw, "%d,%d" % (a, b), pv])
+    add("pos-alone", ok(pout), [pv])
+    # a bare word directly behind the values of the multi-value list belongs to the list
+    if pk == "int" or pv.isdigit():
+        exp = "throw" if mand else ok(pnone, v=(a, b, int(pv)))
+        add("pos-swallowed-by-list", exp, [kv(), str(a), str(b), pv])
+    # a second positional value: cardinality of a scalar
+    add("pos-twice", "throw", [pv, kf(), pv])
+    add("pos-missing", "throw" if mand else ok(pnone, f=1), [kf()])
+    rng.shuffle(out)
+    return Case(cid, lines + out)
 
 
 def value_constraint_case(rng, cid):
